@@ -456,7 +456,7 @@ def run(pid, spec, a, seed, tmp, t_start):
     if not harnesses:
         say('INCONCLUSIVE property=%s reason=no harness selected' % pid)
         return 2
-    expected = specs.expected_harnesses(pid, a.tier)
+    expected = specs.expected_harnesses(pid, a.tier, hdir=os.path.join(ov, 'kh'))  # the copies this run compiled
     present = {h['pretty_name'].split('::')[-1] for h, _ in harnesses}
     missing = [] if a.only else sorted(set(expected) - present)
     harnesses.sort(key=lambda hc: -hc[1].get('weight', 1))
